@@ -206,6 +206,9 @@ func (tr *Tracer) effectOf(ev *Event, cc *ssa.CallCommon) effect {
 		"(*sync.WaitGroup).Wait", "time.Sleep", "runtime.Gosched":
 		return effHavoc
 	}
+	if tr.cfg.Havoc != nil && tr.cfg.Havoc(ev) {
+		return effHavoc
+	}
 	if tr.cfg.NoHavoc != nil && tr.cfg.NoHavoc(ev) {
 		return effNone
 	}
